@@ -230,24 +230,76 @@ class Ctx:
             raise MachineryError("TLC failed on %s/%s (rc=%s):\n%s" % (module, cfg, res.rc, res.out[-3000:]))
         return res
 
+    def tlc_many(self, jobs, parallel=4):
+        """Run several design configs concurrently. jobs: list of dicts of ctx.tlc keyword arguments
+        (module, cfg, ...). Returns the results in order."""
+        from concurrent.futures import ThreadPoolExecutor
+        import threading
+        lock = threading.Lock()
+
+        def one(job):
+            with lock:
+                self._n += 1
+                n = self._n
+            job = dict(job)
+            extra = list(job.pop("extra", ()))
+            coverage = job.pop("coverage", False)
+            need = job.pop("need_actions", ())
+            expect_ok = job.pop("expect_ok", True)
+            if coverage:
+                extra += ["-coverage", "1"]
+            res = run_tlc(job.pop("module"), job.pop("cfg"), self.work / ("tlc%d" % n), extra=extra, **job)
+            return res, coverage, need, expect_ok
+
+        with ThreadPoolExecutor(max_workers=parallel) as ex:
+            outs = list(ex.map(one, jobs))
+        results = []
+        for job, (res, coverage, need, expect_ok) in zip(jobs, outs):
+            self.states += res.distinct
+            self.transitions += res.generated
+            run = {"module": job["module"], "cfg": job["cfg"], "distinct_states": res.distinct,
+                   "states_generated": res.generated, "depth": res.depth, "wall_s": round(res.wall, 2),
+                   "violated": res.violated}
+            if coverage:
+                cov = res.coverage()
+                run["action_coverage"] = {k: v[1] for k, v in cov.items()}
+                for a in need:
+                    if cov.get(a, (0, 0))[1] == 0:
+                        raise MachineryError("vacuity: action %s of %s never taken" % (a, job["module"]))
+            self.tlc_runs.append(run)
+            if expect_ok and not res.ok and not res.violated:
+                (self.work / "tlc_fail.log").write_text(res.out)
+                raise MachineryError("TLC failed on %s/%s (rc=%s):\n%s" % (job["module"], job["cfg"], res.rc, res.out[-3000:]))
+            results.append(res)
+        return results
+
     # ------------------------------------------------------------------ batched trace validation
-    def validate(self, module, cfg, traces, name, env=None, chunk=2000, timeout=3600, workers=1):
+    def validate(self, module, cfg, traces, name, env=None, chunk=2000, timeout=3600, workers=1, parallel=1):
         """Validate traces (list of JSON-able records, each with >=1 event under 'ev') against
-        SPEC/<module>.tla. Returns list of verdict strings aligned with traces."""
+        SPEC/<module>.tla. Returns list of verdict strings aligned with traces. Chunks may be
+        validated by several TLC processes at once (parallel)."""
+        from concurrent.futures import ThreadPoolExecutor
         verdicts = [None] * len(traces)
+        for t in traces:
+            if not t.get("ev"):
+                raise MachineryError("empty trace handed to validator %s" % module)
+        jobs = []
         for c0 in range(0, len(traces), chunk):
-            part = traces[c0:c0 + chunk]
-            for t in part:
-                if not t.get("ev"):
-                    raise MachineryError("empty trace handed to validator %s" % module)
             self._n += 1
-            tf = self.work / ("%s_%d.json" % (name, self._n))
+            jobs.append((c0, traces[c0:c0 + chunk], self._n))
+
+        def one(job):
+            c0, part, n = job
+            tf = self.work / ("%s_%d.json" % (name, n))
             tf.write_text(json.dumps(part))
             e = {"TRACE_FILE": str(tf)}
             if env:
                 e.update(env)
-            res = run_tlc(module, cfg, self.work / ("tlc%d" % self._n), env=e, workers=workers,
-                          timeout=timeout)
+            return run_tlc(module, cfg, self.work / ("tlc%d" % n), env=e, workers=workers, timeout=timeout), tf
+
+        with ThreadPoolExecutor(max_workers=max(1, parallel)) as ex:
+            outs = list(ex.map(one, jobs))
+        for (c0, part, n), (res, tf) in zip(jobs, outs):
             self.states += res.distinct
             self.transitions += res.generated
             self.tlc_runs.append({"module": module, "cfg": cfg, "traces": len(part),
@@ -255,7 +307,7 @@ class Ctx:
                                   "violated": res.violated})
             if res.violated:
                 # a design invariant / action property failed along a recorded execution
-                (self.work / ("%s_%d.tlcout" % (name, self._n))).write_text(res.out)
+                (self.work / ("%s_%d.tlcout" % (name, n))).write_text(res.out)
                 raise MachineryError("invariant %s violated while validating traces with %s; "
                                      "trace specs must be total (see %s)" % (res.violated, module, tf))
             if not res.ok:
